@@ -41,6 +41,8 @@ def run_job(job):
         if 'sequential' not in sig.parameters:
             continue
         psets = indlib.param_sets(name, sig, rng, job['nparams'], small=True)
+        # a period of 1 is degenerate for many definitions (regression over one point ...): not judged here
+        psets = [kw for kw in psets if 1 not in [v for v in kw.values() if isinstance(v, int) and not isinstance(v, bool)]]
         seen = set()
         checked = False
 
@@ -128,7 +130,7 @@ def make_jobs(tier, seed):
     for i in range(0, len(names), chunk):
         jobs.append({'names': names[i:i + chunk], 'seed': rng.randrange(1 << 30), 'mode': 'bc',
                      'nparams': 4 if tier == 'quick' else 12, 'lengths': LENGTHS if tier == 'thorough' else [60, 239, 240, 241, 400],
-                     'kinds': ['walk', 'trend', 'spikes'], 'want_sample': i == 0})
+                     'kinds': ['walk', 'lattice', 'gappy', 'alternating'], 'want_sample': i == 0})
     if tier == 'thorough':
         for i in range(0, len(names), chunk):
             jobs.append({'names': names[i:i + chunk], 'seed': rng.randrange(1 << 30), 'mode': 'jit', 'nparams': 3,
